@@ -7,3 +7,19 @@ for f in sorted(glob.glob(os.path.join(HERE, "evidence", "C*.json"))):
     c = d["coverage"]
     print(d["property_id"], "obl", c.get("obligations"), "disch", c.get("discharged"), "known", len(c.get("failed_unrestricted", [])),
           "bnd", len(c.get("bounded_standins", [])), "fuc", len(c.get("functions_under_contract", [])), "wall", d.get("wall_s"))
+
+# --update: rewrite the obl. / known / bnd columns of the table in DESIGN.md section 0.3 from the evidence files
+import re, sys
+if "--update" in sys.argv:
+    path = os.path.join(HERE, "DESIGN.md")
+    text = open(path, encoding="utf-8").read()
+    for f in sorted(glob.glob(os.path.join(HERE, "evidence", "C*.json"))):
+        d = json.load(open(f))
+        c = d["coverage"]
+        pid = d["property_id"]
+        bnd = len({b.get("id") for b in c.get("bounded_standins", [])})
+        pat = re.compile(r"^(\| %s \| [^|]* \|) *\d+ *\| *\d+ *\| *\d+ *\|" % pid, re.M)
+        text, n = pat.subn(lambda m: f"{m.group(1)} {c.get('obligations')} | {len(c.get('failed_unrestricted', []))} | {bnd} |", text)
+        if n != 1:
+            print("row not found for", pid)
+    open(path, "w", encoding="utf-8").write(text)
